@@ -292,6 +292,12 @@ func implStep(cur *ast.DataMessage, step []string) (next *ast.DataMessage, out s
 				return
 			}
 			next = cur.SetWaitBit(p.peek() == "1")
+		case "fill":
+			if cur == nil {
+				out = "NOMSG"
+				return
+			}
+			next = cur.FillVariables(p.env())
 		case "sess":
 			if cur == nil {
 				out = "NOMSG"
@@ -443,6 +449,8 @@ func implEval(line string) (res string) {
 		return implCtor(p)
 	case "mprog":
 		return implProg(t[1:])
+	case "fillitem":
+		return implFillItem(t[1:])
 	case "dec":
 		return implDec(p.hexb())
 	case "ctrl":
